@@ -95,7 +95,7 @@ EXPORT errno_t _wcscmp_s_chk(const wchar_t *restrict dest, rsize_t dmax,
         return RCNEGATE(ESZEROL);
     }
     if (destbos == BOS_UNKNOWN) {
-        CHK_DMAX_MAX("wcscmp_s", RSIZE_MAX_STR)
+        CHK_DMAX_MAX("wcscmp_s", RSIZE_MAX_WSTR)
         BND_CHK_PTR_BOUNDS(dest, destsz);
     } else {
         CHK_DESTW_OVR("wcscmp_s", destsz, destbos)
